@@ -12,6 +12,8 @@ import Driver.C05
 import Driver.C17
 import Driver.C16
 import Driver.C20
+import Driver.C11
+import Driver.C15
 /-
   kdriver: one request per line on stdin, `model<TAB>spec` per line on stdout.
   Anything it cannot parse is answered `bad-op<TAB>bad-op` (never a default value).
@@ -38,6 +40,11 @@ def dispatch (line : String) : String :=
       else if op = "prog" ∨ op = "prog.v" then Driver.C17.handle op args
       else if op.startsWith "cmp." || op.startsWith "eq." || op.startsWith "assertc." then Driver.C16.handle op args
       else if op.startsWith "cstr." || op.startsWith "cat." then Driver.C20.handle op args
+      else if op.startsWith "arr." then Driver.C11.handle (op.drop 4).toString args
+      else if op = "bld.hist" then Driver.C11.handleBld args
+      else if op.startsWith "cons." then Driver.C15.handle "cons" (op.drop 5).toString args
+      else if op.startsWith "led." then Driver.C15.handle "led" (op.drop 4).toString args
+      else if op.startsWith "destr." then Driver.C15.handle "destr" (op.drop 6).toString args
       else none
   match r with
   | some (m, s) => m ++ "\t" ++ s
